@@ -1857,8 +1857,25 @@ int cif_value_clone(cif_value_tp *value, cif_value_tp **clone) {
     cif_value_tp *to_free = NULL;
 
     if (*clone != NULL) {
-        cif_value_clean(*clone);
-        temp = *clone;
+        if (*clone == value) {
+            /* a value is already a copy of itself */
+            return CIF_OK;
+        } else {
+            /*
+             * The source may be a member of the target or contain it, so the target must not be disturbed until the
+             * copy is complete: clone into a new object, then move the result into the target.
+             */
+            int result;
+
+            temp = NULL;
+            if ((result = cif_value_clone(value, &temp)) != CIF_OK) {
+                return result;
+            }
+            cif_value_clean(*clone);
+            memcpy(*clone, temp, sizeof(cif_value_tp));
+            free(temp);
+            return CIF_OK;
+        }
     } else {
         if (cif_value_create(CIF_UNK_KIND, &temp) != CIF_OK) DEFAULT_FAIL(soft);
         to_free = temp;
